@@ -222,6 +222,7 @@ class Report(object):
         self.violations = []       # dicts
         self.known_hit = []
         self.floors = []
+        self.floor_failures = []
         self.samples = []
         self.analysed = {}
         self.assumptions = []
@@ -257,8 +258,9 @@ class Report(object):
     def floor(self, name, actual, minimum):
         self.floors.append({'name': name, 'actual': actual, 'minimum': minimum})
         if actual < minimum:
-            raise AnalysisError('instance floor %r: found %d, confirmed by hand %d'
-                                % (name, actual, minimum))
+            # decided in finish(): a violation found on the way takes precedence over the vacuity guard
+            self.floor_failures.append('instance floor %r: found %d, confirmed by hand %d'
+                                       % (name, actual, minimum))
 
     def sample(self, obj):
         if len(self.samples) < 40:
@@ -332,6 +334,8 @@ class Report(object):
             print('VIOLATION property=%s replay=%s' % (self.prop, path))
             self.write_evidence('violation')
             return 1
+        if self.floor_failures:
+            raise AnalysisError('; '.join(self.floor_failures))
         self.write_evidence('holds')
         n_ok = sum(1 for o in self.obligations if o[4])
         print('OK property=%s tier=%s obligations=%d discharged=%d known_findings=%d wall=%.2fs'
